@@ -20,10 +20,18 @@ package jobs
 //	      graph as it stands when the job runs, where the FIRST join, if it is
 //	      an outgoing one, is also followed in the model graph of the previous
 //	      phase (removed first-hop link)
-//	emitted ⊇ expected   (a superset is fine: the statement is a completeness claim)
+//	emitted ⊇ expected   (a superset is fine: the statement is a completeness claim);
+//	  emitted = what the sink accepted; a sync may inject one sink failure, the
+//	  failed run's refused batch does not count and the following runs must
+//	  deliver it (tokens only advance past changes that were processed)
 //	every emitted entity is a version of an entity of the main dataset
 //	main token and every dependency token: readable, never beyond the end of
 //	that dataset's change feed, never moving backwards
+//
+// Finding F24 (removed-link lookup inside a write batch): input shape "the job
+// page holding an entity's first change of the phase starts inside the write
+// batch of that change"; when listed as known the previous-phase targets of
+// that entity are not expected (current-graph targets still are).
 //
 // Known finding F19 (GetChangesWatermark on an empty dataset): input shape
 // "some dependency/join dataset has no change at the job's first run"; when
@@ -182,13 +190,26 @@ func c18GenEnt(t *rapid.T, p []string, cfg c18Cfg, ds string) *kit.Ent {
 
 // ---- recording sink ------------------------------------------------------------
 
-type c18RecSink struct{ got []*kit.Ent }
+// c18RecSink records what the pipeline delivers. failAt > 0: the failAt-th
+// delivery since the last reset is refused once with an error (nothing of
+// that batch counts as emitted).
+type c18RecSink struct {
+	got    []*kit.Ent
+	calls  int
+	failAt int
+	fired  bool
+}
 
 func (r *c18RecSink) GetConfig() map[string]interface{} {
 	return map[string]interface{}{"Type": "DevNullSink"}
 }
 
 func (r *c18RecSink) processEntities(runner *Runner, entities []*server.Entity) error {
+	r.calls++
+	if r.failAt > 0 && r.calls == r.failAt {
+		r.fired = true
+		return fmt.Errorf("verif: injected sink failure at delivery %d", r.failAt)
+	}
 	for _, e := range entities {
 		r.got = append(r.got, kit.FromEntity(e))
 	}
@@ -203,7 +224,8 @@ type c18Op struct {
 	K       string     `json:"k"` // "write" | "sync"
 	DS      string     `json:"ds,omitempty"`
 	Ents    []*kit.Ent `json:"ents,omitempty"`
-	Seed    bool       `json:"seed,omitempty"` // F19 exclusion: seed entity written by the harness
+	Seed    bool       `json:"seed,omitempty"`   // F19 exclusion: seed entity written by the harness
+	FailAt  int        `json:"failAt,omitempty"` // sync: the n-th delivery to the sink in this phase fails once
 	Runs    int        `json:"runs,omitempty"`
 	Emitted []string   `json:"emitted,omitempty"`
 	Tokens  []string   `json:"tokens,omitempty"`
@@ -224,6 +246,7 @@ type c18M struct {
 	cs      *c18Case
 	prev    map[string]map[string]*kit.Ent // model graph of the previous phase
 	mark    map[string]int                 // model feed length per dataset at the start of the phase
+	spans   map[string][][2]int            // per dataset: model feed index range [from,to) each write batch appended
 	lastTok map[string]uint64
 	firstDone,
 	inconclusive bool
@@ -234,7 +257,7 @@ type c18M struct {
 
 func newC18M(f c08Fataler, h *vjHub, cfg c18Cfg) *c18M {
 	c := &c18M{f: f, h: h, cfg: cfg, m: kit.NewModel(), cs: &c18Case{Cfg: cfg}, prev: map[string]map[string]*kit.Ent{},
-		mark: map[string]int{}, lastTok: map[string]uint64{}, cls: map[string]bool{}}
+		mark: map[string]int{}, spans: map[string][][2]int{}, lastTok: map[string]uint64{}, cls: map[string]bool{}}
 	for _, ds := range cfg.path() {
 		h.createDataset(ds)
 		c.m.Create(ds)
@@ -260,7 +283,37 @@ func (c *c18M) write(op c18Op) {
 	if err := c.h.write(op.DS, op.Ents); err != nil {
 		c.fail("VERIF-INFRA write to %s failed: %v", op.DS, err)
 	}
+	from := len(c.m.DS[op.DS].Feed)
 	c.m.Write(op.DS, op.Ents)
+	if to := len(c.m.DS[op.DS].Feed); to > from {
+		c.spans[op.DS] = append(c.spans[op.DS], [2]int{from, to})
+	}
+}
+
+// f24Shape: known finding F24. The job reads a dependency's changes in pages of
+// batchSize entries starting where the previous phase ended; the removed-link
+// lookup of a page uses the recorded time of the change just before the page.
+// Input shape: the first change of x in this phase lies in a page that starts
+// inside the write batch that change belongs to (a batch has one recorded time).
+func (c *c18M) f24Shape(ds, x string) bool {
+	feed, mark := c.m.DS[ds].Feed, c.mark[ds]
+	q := -1
+	for i := mark; i < len(feed); i++ {
+		if feed[i].ID == x {
+			q = i
+			break
+		}
+	}
+	if q < 0 {
+		return false
+	}
+	pageStart := mark + (q-mark)/c.cfg.Batch*c.cfg.Batch
+	for _, sp := range c.spans[ds] {
+		if sp[0] <= q && q < sp[1] {
+			return pageStart-1 >= sp[0]
+		}
+	}
+	return false
 }
 
 func c18Targets(e *kit.Ent, pred string) []string {
@@ -319,6 +372,13 @@ func (c *c18M) expected() (map[string]string, bool) {
 			rewired := false
 			if !d.Joins[0].Inverse {
 				was := c18Step(c.prev, start, d.DS, d.Joins[0])
+				if len(was) > 0 && c.f24Shape(d.DS, x) {
+					c.cls["f24-shape"] = true
+					if kit.Known("F24") {
+						kit.S().Exclude("F24")
+						was = nil
+					}
+				}
 				for id := range was {
 					if !s[id] {
 						rewired = true
@@ -404,8 +464,9 @@ func (c *c18M) checkTokens(token string) {
 	}
 }
 
-// sync runs the job until its token stops changing and checks the phase.
-func (c *c18M) sync() {
+// sync runs the job until a successful run leaves its token unchanged and
+// checks the phase. failAt > 0 injects one sink failure.
+func (c *c18M) sync(failAt int) {
 	if c.inconclusive {
 		return
 	}
@@ -417,12 +478,12 @@ func (c *c18M) sync() {
 			}
 		}
 	}
-	op := c18Op{K: "sync"}
+	op := c18Op{K: "sync", FailAt: failAt}
 	c.cs.Hist = append(c.cs.Hist, op)
 	idx := len(c.cs.Hist) - 1
 	kit.Journal(c.cs)
 	exp, nt := c.expected()
-	c.rec.got = nil
+	c.rec.got, c.rec.calls, c.rec.failAt, c.rec.fired = nil, 0, failAt, false
 	caught := false
 	for op.Runs < 30 {
 		before := c.h.syncState(c18JobID).ContinuationToken
@@ -440,6 +501,16 @@ func (c *c18M) sync() {
 		op.Tokens = append(op.Tokens, after)
 		c.cs.Hist[idx] = op
 		if res.LastError != "" {
+			if c.rec.fired && c.rec.failAt > 0 {
+				// the injected failure: disarm, the following runs must make up for it
+				c.rec.failAt = 0
+				c.cls["sink-failure-hit"] = true
+				kit.S().AddExtra("faultpoint sink delivery error hit", 1)
+				if after != "" {
+					c.checkTokens(after)
+				}
+				continue
+			}
 			c.fail("job run failed, the job cannot catch up: %s", res.LastError)
 		}
 		c.checkTokens(after)
@@ -531,7 +602,13 @@ func TestVerif_C18(t *testing.T) {
 			kit.JournalDone()
 		}()
 		acts := map[string]func(*rapid.T){
-			"sync": func(t *rapid.T) { c.sync() },
+			"sync": func(t *rapid.T) {
+				failAt := 0
+				if rapid.IntRange(0, 2).Draw(t, "fault") == 0 {
+					failAt = rapid.IntRange(1, 4).Draw(t, "failAt")
+				}
+				c.sync(failAt)
+			},
 		}
 		for _, ds := range cfg.path() {
 			ds := ds
@@ -547,7 +624,7 @@ func TestVerif_C18(t *testing.T) {
 		// a second entry for the dependency side keeps link changes frequent
 		acts["write-dep2"] = acts["write-dep"]
 		t.Repeat(acts)
-		c.sync()
+		c.sync(0)
 	})
 }
 
@@ -564,7 +641,25 @@ func TestVerifProbe_F19(t *testing.T) {
 	c := newC18M(t, h, cfg)
 	m2, d1 := h.P[0]+":m2", h.P[0]+":d1"
 	c.write(c18Op{K: "write", DS: "main", Ents: []*kit.Ent{{ID: m2, Props: map[string]any{h.P[0] + ":v": 1}, Refs: map[string]any{}}}})
-	c.sync()
+	c.sync(0)
 	c.write(c18Op{K: "write", DS: "dep", Ents: []*kit.Ent{{ID: d1, Props: map[string]any{}, Refs: map[string]any{h.P[0] + ":j0": m2}}}})
-	c.sync()
+	c.sync(0)
+}
+
+// F24: a page boundary of the job inside one dependency write batch hides a
+// removed first-hop link (all entities of a batch share one recorded time).
+func TestVerifProbe_F24(t *testing.T) {
+	defer kit.CleanupScratch()
+	h := newVJHub(vjOpts{})
+	defer h.close()
+	j0 := h.P[0] + ":j0"
+	cfg := c18Cfg{Hops: []c18Hop{{DS: "main", Pred: j0, Inverse: false}}, Via: "json", Batch: 1}
+	c := newC18M(t, h, cfg)
+	m0, d0, d1 := h.P[0]+":m0", h.P[0]+":d0", h.P[0]+":d1"
+	none := map[string]any{}
+	c.write(c18Op{K: "write", DS: "main", Ents: []*kit.Ent{{ID: m0, Props: none, Refs: none}}})
+	c.write(c18Op{K: "write", DS: "dep", Ents: []*kit.Ent{{ID: d0, Props: none, Refs: map[string]any{j0: m0}}}})
+	c.sync(0)
+	c.write(c18Op{K: "write", DS: "dep", Ents: []*kit.Ent{{ID: d1, Props: none, Refs: none}, {ID: d0, Props: none, Refs: none}}})
+	c.sync(0)
 }
